@@ -41,6 +41,27 @@ def rand_case(rng, k):
             "calls": calls, "lits": ["Connect-Back to c2", "/bin/sh -c"], "sigs": sigs, "thetas": thetas}
 
 
+def crowd_case(rng, k, n):
+    """One function against MANY signatures that all alert at a low threshold (n crosses the round sizes a
+    per-function cap or page would have: 64, 100, 128, 256): the early ones in index / insertion order
+    (zero-padded IDs) score low, the late ones high, one of the late ones is the exact-hash best."""
+    blocks, loops, te = rng.choice([2, 3, 5]), rng.choice([1, 2]), rng.choice([8, 10, 12])
+    calls = rng.sample(CALLS, 3)
+    cut = rng.randrange(n // 2, n - 3)
+    sigs = []
+    for i in range(n):
+        low = i < cut
+        sigs.append({"id": "s%04d" % i, "hashEq": (not low) and rng.random() < 0.7, "fuzzyEq": True,
+                     "node": blocks + (rng.choice([2, 3, 5]) if low else 0), "depth": loops + (1 if low and rng.random() < 0.5 else 0),
+                     "se": te + (rng.choice([0, 1]) if low else 0), "stol": rng.choice([1, 2, 4]),
+                     "required": [], "patterns": rng.sample(PATS, rng.choice([0, 1])) if low else []})
+    sigs[-1]["hashEq"] = True
+    thetas = [250000000, 500000000, 750000000, 900000000, 990000000, 1000000000]
+    rng.shuffle(thetas)
+    return {"key": "crowd%d" % k, "blocks": blocks, "loops": loops, "te": te, "ctol": 2,
+            "calls": calls, "lits": ["Connect-Back to c2", "/bin/sh -c"], "sigs": sigs, "thetas": thetas}
+
+
 def check(ctx):
     thorough = ctx.tier == "thorough"
     ctx.build_drv()
@@ -60,6 +81,9 @@ def check(ctx):
         pts.append({"p": d["p"], "conf": d["conf"]})
     rng = random.Random(ctx.seed * 19 + 8)
     cases = [rand_case(rng, k) for k in range(1500 if thorough else 250)]
+    sizes = [65, 101, 129, 257, 300, 520, 1030] if thorough else [65, 129, rng.choice([101, 257])]
+    cases += [crowd_case(rng, k, n) for k, n in enumerate(sizes)]
+    ctx.notes["crowd_sizes"] = sizes
     plan = os.path.join(ctx.scratch, "plan.json")
     raw = os.path.join(ctx.scratch, "raw.ndjson")
     with open(plan, "w") as fh:
